@@ -20,11 +20,20 @@ func c17Page(w *World, path string, plan int, nDenoms int) (sdk.Coins, int, erro
 	var out sdk.Coins
 	pages := 0
 	limit := uint64(1 + plan%(nDenoms+2))
+	if nDenoms > 40 && limit < uint64(nDenoms/8) {
+		limit += uint64(nDenoms / 8) // very many denominations: at most nine pages per walk
+	}
 	byOffset := (plan/7)%2 == 1
 	reverse := (plan/3)%3 == 2
 	countTotal := plan%2 == 0
 	var next []byte
 	offset := uint64(0)
+	// two plans in nine carry no pagination at all in the first request (absent, or present and empty) and then only
+	// the continuation key: the service's default page size applies
+	bare := plan%9 == 4 || plan%9 == 7
+	if bare {
+		byOffset = false
+	}
 	for guard := 0; guard < 20000; guard++ {
 		pr := &query.PageRequest{Limit: limit, CountTotal: countTotal, Reverse: reverse}
 		if byOffset {
@@ -32,13 +41,20 @@ func c17Page(w *World, path string, plan int, nDenoms int) (sdk.Coins, int, erro
 		} else {
 			pr.Key = next
 		}
+		if bare {
+			pr = &query.PageRequest{Key: next}
+			if next == nil && plan%9 == 4 {
+				pr = nil
+			}
+			w.Class("c17.listing-without-pagination-parameters")
+		}
 		var resp enttypes.QueryTotalSupplyResponse
 		if err := w.C.Query(path, &enttypes.QueryTotalSupplyRequest{Pagination: pr}, &resp); err != nil {
 			return nil, pages, err
 		}
 		pages++
 		out = append(out, resp.Supply...)
-		if countTotal && resp.Pagination != nil && (byOffset || next == nil) && resp.Pagination.Total != uint64(nDenoms) {
+		if countTotal && !bare && resp.Pagination != nil && (byOffset || next == nil) && resp.Pagination.Total != uint64(nDenoms) {
 			return nil, pages, fmt.Errorf("pagination total %d, there are %d denominations", resp.Pagination.Total, nDenoms)
 		}
 		if byOffset {
@@ -153,7 +169,13 @@ func init() {
 				w.Class("c17.locked-partial")
 			}
 			// SupplyOf and its Overwrite twin, for every denomination the bank knows and one it does not
-			for _, d := range append(bankCoins.Denoms(), "nosuchdenom") {
+			// with very many denominations the per-denomination probes take a rotating sample (the native one always)
+			stride := len(bankCoins)/12 + 1
+			sampled := func(i int, d string) bool { return stride == 1 || d == denom || (i+int(w.C.Height))%stride == 0 }
+			for i, d := range append(bankCoins.Denoms(), "nosuchdenom") {
+				if !sampled(i, d) {
+					continue
+				}
 				for _, m := range []string{"SupplyOf", "SupplyOfOverwrite"} {
 					var r enttypes.QuerySupplyOfResponse
 					if err := w.C.Query(qEnt+m, &enttypes.QuerySupplyOfRequest{Denom: d}, &r); err != nil {
@@ -210,12 +232,21 @@ func init() {
 			// arbitrary single page requests (any denomination as start key, both directions, any limit): the page the
 			// enterprise service serves = the page the bank serves for the same request, native denomination adjusted
 			denoms := bankCoins.Denoms()
+			if n > 100 {
+				w.Class("c17.more-than-100-denominations")
+			}
+			if n > 200 {
+				w.Class("c17.more-than-200-denominations")
+			}
 			for i, d := range denoms {
-				if (plan+i)%2 == 1 {
+				if (plan+i)%2 == 1 || !sampled(i/2, d) {
 					continue // half of the start keys per height; the other half at the next height
 				}
 				for _, rev := range []bool{false, true} {
 					pr := &query.PageRequest{Key: []byte(d), Limit: uint64(1 + (plan+i)%(n+1)), Reverse: rev}
+					if n > 40 && pr.Limit > 12 && (plan+i)%7 != 0 {
+						pr.Limit = 1 + pr.Limit%12 // very many denominations: mostly short pages (a page costs O(limit^2) in the bank keeper)
+					}
 					if (plan+i)%5 == 0 {
 						pr = &query.PageRequest{Offset: uint64(i), Limit: pr.Limit, Reverse: rev, CountTotal: i%2 == 0}
 					}
